@@ -884,6 +884,37 @@ func c12EraseBeforeCreate(w *World, r *Report) {
 		return false
 	}
 	creates := calls(cf, false, isFSCreate)
+	// a dispatch table: CreateFilesystem calls a function value whose possible targets (CHA) call the Create functions
+	// with their own parameters; such a call site stands for the Create calls behind it
+	dynStart := map[ssa.CallInstruction]ssa.Value{}
+	if len(creates) == 0 {
+		for _, cc := range calls(cf, false, func(c ssa.CallInstruction) bool {
+			return !c.Common().IsInvoke() && c.Common().StaticCallee() == nil
+		}) {
+			var startArg ssa.Value
+			n := 0
+			for _, t := range w.calleesCHA(cc) {
+				if !w.fnSet[t] || t.Blocks == nil {
+					continue
+				}
+				for _, inner := range calls(t, false, isFSCreate) {
+					n++
+					if a := inner.Common().Args; len(a) >= 3 {
+						v := unspillParam(stripConv(a[2]))
+						for j, p := range t.Params {
+							if ssa.Value(p) == v && j < len(cc.Common().Args) {
+								startArg = cc.Common().Args[j]
+							}
+						}
+					}
+				}
+			}
+			if n >= len(fsPkgs) {
+				creates = append(creates, cc)
+				dynStart[cc] = startArg
+			}
+		}
+	}
 	if len(creates) == 0 {
 		r.Undecided("C12-g", name, "filesystem Create calls", w.relFile(cf.Pos()), "CreateFilesystem does not call the filesystem packages' Create functions directly")
 		return
@@ -923,6 +954,7 @@ func c12EraseBeforeCreate(w *World, r *Report) {
 	}
 	for _, cc := range creates {
 		g := cc.Common().StaticCallee()
+		_, isDyn := dynStart[cc]
 		// the value the dispatch compares, and the constant that leads to this call
 		type constraint struct {
 			v ssa.Value
@@ -949,6 +981,9 @@ func c12EraseBeforeCreate(w *World, r *Report) {
 		startArg := ssa.Value(nil)
 		if args := cc.Common().Args; len(args) >= 3 {
 			startArg = args[2]
+		}
+		if isDyn {
+			startArg = dynStart[cc]
 		}
 		refuse := func(b *ssa.BasicBlock, idx int) bool {
 			if off, isWipe := wipeBlocks[b]; isWipe && (startArg == nil || sameStart(off, startArg)) {
@@ -982,6 +1017,14 @@ func c12EraseBeforeCreate(w *World, r *Report) {
 		ok := !reach[cc.Block()]
 		if _, wipeHere := wipeBlocks[cc.Block()]; wipeHere {
 			ok = true
+		}
+		if isDyn {
+			// one obligation per filesystem package, all decided at the dispatching call
+			for _, pk := range fsPkgs {
+				r.Check(ok, "C12-g", name, "old signatures erased before "+pk+".Create", w.relFile(cc.Pos()), "through the table of creators",
+					fmt.Sprintf("the call that dispatches to %s.Create can be reached without zeroing the first %d bytes of the target range", pk, signatureWindow))
+			}
+			continue
 		}
 		r.Check(ok, "C12-g", name, "old signatures erased before "+w.pkgOf(g)+".Create", w.relFile(cc.Pos()), "",
 			fmt.Sprintf("%s.Create can be reached without zeroing the first %d bytes of the target range: Create writes only its own structures, so the boot sector / superblock / volume descriptor of an earlier filesystem of another type survives and GetFilesystem reports the old type", w.pkgOf(g), signatureWindow))
